@@ -112,7 +112,9 @@ class SimPool:
 
     def __init__(self, processes=None):
         self.world = _ACTIVE[0]
-        self.processes = processes or 1
+        if processes is not None and processes < 1:
+            raise ValueError("Number of processes must be at least 1")      # as multiprocessing.Pool does
+        self.processes = processes or (os.cpu_count() or 1)
 
     def __enter__(self):
         return self
@@ -418,9 +420,10 @@ class PfWorld:
 
     def img_spec(self, p):
         return {'lines': [dict({'blocks': ln.get('blocks', ln.get('frames', 4)), 'seed': ln['seed'], 'amb': ln.get('amb', 0.3),
-                                'id': ln.get('id', 'l%03d' % j)}, **({'hsplit': ln['hsplit']} if ln.get('hsplit') else {}))
+                                'id': ln.get('id', 'l%03d' % j), 'descenders': ln.get('descenders', False)},
+                               **({'hsplit': ln['hsplit']} if ln.get('hsplit') else {}))
                           for j, ln in enumerate(p['lines'])],
-                'regions': p.get('regions', 1)}
+                'regions': p.get('regions', 1), 'curved': p.get('curved', False), 'canvas': p.get('canvas')}
 
     def logit_layout(self, p):
         """Layout with generated logits whose line geometry matches the painted image."""
@@ -444,6 +447,10 @@ class PfWorld:
         by_id = {ln.id: ln for ln in lay.lines_iterator()}
         return [by_id[ls['id']] for ls in spec['lines']]
 
+    def dirname(self, kind):
+        """Output folder of a kind relative to the run's output root (plans may nest or share folders)."""
+        return (self.plan.get('folders') or {}).get(kind, kind)
+
     def expected_files(self):
         """Per page: the output files a complete page has, by requested kind."""
         exp = {}
@@ -453,15 +460,15 @@ class PfWorld:
             fs = {}
             for kind in self.plan['outputs']:
                 if kind == 'xml':
-                    fs[kind] = ['xml/%s.xml' % p['id']]
+                    fs[kind] = ['%s/%s.xml' % (self.dirname('xml'), p['id'])]
                 elif kind == 'render':
-                    fs[kind] = ['render/%s.jpg' % p['id']]
+                    fs[kind] = ['%s/%s.jpg' % (self.dirname('render'), p['id'])]
                 elif kind == 'logits':
-                    fs[kind] = ['logits/%s.logits' % p['id']]
+                    fs[kind] = ['%s/%s.logits' % (self.dirname('logits'), p['id'])]
                 elif kind == 'alto':
-                    fs[kind] = ['alto/%s.xml' % p['id']]
+                    fs[kind] = ['%s/%s.xml' % (self.dirname('alto'), p['id'])]
                 elif kind == 'lines':
-                    fs[kind] = ['lines/%s-%s.jpg' % (p['id'], ln.get('id', 'l%03d' % j)) for j, ln in enumerate(p['lines'])]
+                    fs[kind] = ['%s/%s-%s.jpg' % (self.dirname('lines'), p['id'], ln.get('id', 'l%03d' % j)) for j, ln in enumerate(p['lines'])]
             exp[p['id']] = fs
         return exp
 
@@ -483,7 +490,7 @@ class PfWorld:
                 'alto': '--output-alto-path', 'lines': '--output-line-path'}
         for kind in KINDS:
             if kind in ov.get('outputs', self.plan['outputs']) and kind not in in_cfg:
-                a += [flag[kind], os.path.join(out, kind)]
+                a += [flag[kind], os.path.join(out, self.dirname(kind))]
         if self.plan.get('transcriptions_file') and 'outputs' not in ov:
             a += ['--output-transcriptions-file-path', os.path.join(out, 'transcriptions.txt')]
         if procs > 1:
@@ -503,7 +510,7 @@ class PfWorld:
             ini.read(self.ini)
             key = {'xml': 'OUTPUT_XML_PATH', 'render': 'OUTPUT_RENDER_PATH', 'logits': 'OUTPUT_LOGIT_PATH',
                    'alto': 'OUTPUT_ALTO_PATH', 'lines': 'OUTPUT_LINE_PATH'}
-            ini['PARSE_FOLDER'] = {key[k]: os.path.join(out, k) for k in kinds if k in self.plan['outputs']}
+            ini['PARSE_FOLDER'] = {key[k]: os.path.join(out, self.dirname(k)) for k in kinds if k in self.plan['outputs']}
             with open(path, 'w') as f:
                 ini.write(f)
         return path
